@@ -52,7 +52,7 @@ def c16(tier, seed):
             jobs.append(Job("query2-%d" % i, H, ["query", 2, i, 32], weight=10))
         for i in range(8):
             jobs.append(Job("query3-%d" % i, H, ["query", 3, i, 8], weight=4))
-    return jobs
+    return jobs + mtpure_jobs("codec")
 
 
 def forbid(key):
@@ -60,6 +60,14 @@ def forbid(key):
         if stats.get(key, 0) > 0:
             return "%s=%d (must be 0)" % (key, stats.get(key, 0))
     return g
+
+
+def mtpure_jobs(fam):
+    """re-entrancy family (engines/inputmc/mtpure.c): two threads inside the routines under the E2 scheduler, asan (results equal the
+    results of the calls made alone) and tsan (no data race report; hand-offs invisible to the sanitizer)"""
+    return [Job("mt-%s-%s" % (fam, fl), ["inputmc/mtpure.c", "sched/sched.c"], [fam, 3], flavour=fl,
+                wraps=["read", "pthread_mutex_trylock", "pthread_mutex_unlock", "usleep"],
+                nosan=["sched/sched.c"], weight=2, env={"VC_PIN": "1"}) for fl in ("asan", "tsan")]
 
 
 # ---------------------------------------------------------------- C18
@@ -81,6 +89,10 @@ def c18(tier, seed):
     jobs = [Job("small-len1", H, ["small", 1, 0, 256], weight=0.01), Job("small-len2", H, ["small", 2, 0, 256], weight=0.2),
             Job("file", H, ["file"], weight=2), Job("hugelen", H, ["hugelen", 1 if tier == "thorough" else 0], flavour="plain", weight=20),
             Job("fileenv", H, ["fileenv", 3 if tier == "thorough" else 2], wraps=["read", "fstat"], cflags=["-DC18_ENV=1"], weight=3)]
+    # re-entrancy: two threads inside the hash functions under the E2 scheduler, scheduling points at read()
+    for fl in ("asan", "tsan"):
+        jobs.append(Job("mt-%s" % fl, H + ["sched/sched.c"], ["mt", 4 if tier == "thorough" else 3], flavour=fl, wraps=["read", "pthread_mutex_trylock", "pthread_mutex_unlock", "usleep"],
+                        nosan=["sched/sched.c"], cflags=["-DC18_MT=1"], weight=4, env={"VC_PIN": "1"}))
     n = 32
     for i in range(n):
         jobs.append(Job("small-len3-%02d" % i, H, ["small", 3, i * 256 // n, (i + 1) * 256 // n], weight=5))
@@ -106,7 +118,7 @@ def c19(tier, seed):
         jobs.append(Job("replace-%02d" % i, H, ["replace", i] + t, weight=2))
     jobs.append(Job("replacebig", H, ["replacebig"], flavour="plain", weight=2))   # no sanitizer: the worst-case buffer of the repaired code is 4 GiB of untouched pages
     jobs.append(bigfmt_job("qstring"))      # qstrdupf / qstrcatf across the 1024 * 2^k growth thresholds of the formatting buffer
-    return jobs
+    return jobs + mtpure_jobs("string")
 
 def acdeep_jobs(tier):
     X = 1 if tier == "thorough" else 0
@@ -141,7 +153,7 @@ def c17(tier, seed):
     for name, L, shards in (("apache0", 5 + X, 4), ("apache3", 5 + X, 4), ("ini", 5 + X, 4), ("inifile", 4 + X, 2), ("query", 6 + X, 1)):
         for i in range(shards):
             jobs.append(Job("o0-%s-%d" % (name, i), H, [name, L, i, shards], wraps=W, flavour="o0", weight=4))
-    return jobs + acdeep_jobs(tier)
+    return jobs + acdeep_jobs(tier) + mtpure_jobs("parse")
 
 # ---------------------------------------------------------------- C20
 @prop("C20", "exploration",
@@ -188,7 +200,7 @@ def c20(tier, seed):
     jobs.append(Job("o0-actype-0", H, ["actype", 0], wraps=W, flavour="o0", weight=2))
     jobs.append(Job("o0-acquote-0", H, ["acquote", 2, 0, 1], wraps=W, flavour="o0", weight=2))
     jobs.append(Job("o0-ini-0", H, ["ini", 3, 0, 1], wraps=W, flavour="o0", weight=2))
-    return jobs + acdeep_jobs(tier)
+    return jobs + acdeep_jobs(tier) + mtpure_jobs("parse")
 
 VA_WRAPS = ["malloc", "calloc", "realloc", "strdup", "free"]
 
